@@ -9,7 +9,7 @@ from .. import aio, wire
 from ..common import Ctx, pmap
 
 LEVEL = "fault_enumeration"
-LEVEL_TEXT = ("Fault injection on the four unmodified clients over an in-memory transport and a virtual clock: sequences of episodes "
+LEVEL_TEXT = ("Fault injection (with plain, slow, slow-on-CONNECTED and raising status callbacks) on the four unmodified clients over an in-memory transport and a virtual clock: sequences of episodes "
               "(connect refused k times / failing connect, end of stream, reset on read, error on write, garbage then end of stream, the "
               "EByte 'Sorry,Limited' block) are injected at generated loop steps or virtual times after each (re)connection - in the "
               "thorough tier at EVERY loop step of each session shape - and recovery, back-off, single receive path and loop liveness "
